@@ -807,7 +807,7 @@ func TestCheck(t *testing.T) {
 		r.Event("corpus_cases", len(corpus()))
 	}
 	rng := r.Rand("c10")
-	n := r.N(80000, 2400000)
+	n := r.N(80000, 12000000)
 	for i := 0; i < n; i++ {
 		cs := genCase(rng)
 		if i%64 == 0 {
